@@ -17,7 +17,7 @@ MANIFEST = dict(
          "`self.changes = []` reset, the for-else clear, ack-before-parse, counter kind), so removing the reset or changing a slice changes the Lean term. "
          "Tie: translator facts + differential correspondence of the real long-lived handler objects (async via the real consume task on the virtual loop; "
          "threaded via stepped dispatch on a real GeckoSpa) + a sequential reference block kept by the harness (search)."
-         ' Since session 3: partial updates carry overlapping neighbour records (p, p+-1, p). Session 4: histories contain partial updates that arrive while a request holds the protocol lock (busy windows): application stays in arrival order and every update is acknowledged. The acknowledging handler and the apply callback of the awaitable client have no suspension point (partial_update_never_suspends over the regenerated skeletons; no_suspension_no_aw: every trace is one atomic block). Histories with a byte-identical report repeated after a refresh overwrote its positions; partial_update_path_state_inventory. Real refresh exchanges on the wire with a partial update queued just ahead of the answer, at several phases of the two pollers.',
+         ' Since session 3: partial updates carry overlapping neighbour records (p, p+-1, p). Session 4: histories contain partial updates that arrive while a request holds the protocol lock (busy windows): application stays in arrival order and every update is acknowledged. The acknowledging handler and the apply callback of the awaitable client have no suspension point (partial_update_never_suspends over the regenerated skeletons; no_suspension_no_aw: every trace is one atomic block). Histories with a byte-identical report repeated after a refresh overwrote its positions; partial_update_path_state_inventory. Real refresh exchanges on the wire with a partial update queued just ahead of the answer, at several phases of the two pollers. Session 5: connected clients (the items of a pack\'s tables built over the block and watched, as a facade does) with partial updates and refreshes that put unusual stored values under them (an enumeration\'s byte at / around its label count, 255, first record of several); an exception of the implementation during a refresh is an observation with a failing input.',
     note="Trusted: Lean kernel, translator, correspondence harness. asyncio: no other task runs between async_handle and async_handled (neither suspends). "
          "Malformed STATP bodies (short records) and observers that raise inside the threaded callback are outside the property's quantifier and the model. "
          "A STATQ arriving at the client is outside the quantifier too (the async handler would then re-apply its last change list).",
@@ -90,10 +90,72 @@ def gen_history(rng, n):
     return ev
 
 
+def _connected_tables(struct_, tables):
+    """a CONNECTED client has the items of its pack tables built over the block, and its facade watches them: every update then also
+    decodes the old and the new value of every item it touches (the decoders are code the update path runs)"""
+    if not tables:
+        return
+    import importlib
+    cm = importlib.import_module("geckolib.driver.packs." + tables[0])
+    lm = importlib.import_module("geckolib.driver.packs." + tables[1])
+    struct_.build_accessors(cm.GeckoConfigStruct(struct_), lm.GeckoLogStruct(struct_))
+    for acc in struct_.accessors.values():
+        acc.watch(_quiet_observer)
+
+
+def _quiet_observer(sender, old, new):
+    pass
+
+
+def gen_edge_history(rng, items):
+    """partial updates and refreshes that put UNUSUAL stored values under the items of a connected client: an enumeration's byte at
+    exactly / just below / just above the number of its labels, 255, times with minute bytes > 59, words at 0 / 0xFFFF; the unusual
+    record comes FIRST in a message of several records, so that a decoder that gives up loses the rest of the message"""
+    ev = []
+    enums = [it for it in items if it["kind"] == "enum" and it["pos"] + 2 < 1022 and it["pos"] > 1]
+    others = [it for it in items if it["kind"] in ("time", "word", "temp", "byte", "bool") and 1 < it["pos"] < 1020]
+    picks = rng.sample(enums, min(len(enums), 5)) + rng.sample(others, min(len(others), 2))
+    for it in picks:
+        n = len(it.get("labels") or [])
+        if it["kind"] == "enum":
+            if it["bitpos"] is None:
+                vals = [n, n - 1, n + 1, 255, n]
+            else:
+                vals = [min(it["mask"], n) << it["bitpos"], it["mask"] << it["bitpos"], 0xFF, max(0, n - 1) << it["bitpos"]]
+            vals = [v & 0xFF for v in vals if v >= 0]
+        else:
+            vals = [0, 0xFF, 0x3C, 0x7F]
+        far = [rng.randrange(2, 1000) for _ in range(2)]
+        for v in vals:
+            p = it["pos"] + it["len"] - 1            # the item's low (or only) byte
+            form = rng.randrange(4)
+            if form == 0:
+                ev.append(("statp", [(p, bytes([v, rng.randrange(256)])), (far[0], bytes([rng.randrange(256), rng.randrange(256)])),
+                                     (far[1], bytes([rng.randrange(256), rng.randrange(256)]))]))
+            elif form == 1:
+                ev.append(("statp", [(p - 1, bytes([rng.randrange(256), v])), (far[0], bytes([rng.randrange(256), rng.randrange(256)]))]))
+            elif form == 2:
+                ev.append(("statp", [(p, bytes([v]))]))
+                ev.append(("statp", [(far[1], bytes([rng.randrange(256), rng.randrange(256)]))]))
+            else:
+                off = max(0, p - 3)
+                seg = bytearray(rng.randrange(256) for _ in range(8))
+                seg[p - off] = v
+                ev.append(("refresh", off, bytes(seg)[:1024 - off]))
+            if rng.random() < 0.5:
+                # ... and AWAY from the unusual value again
+                ev.append(("statp", [(p, bytes([rng.randrange(0, max(1, n) if it["kind"] == "enum" else 256), rng.randrange(256)])),
+                                     (far[0], bytes([rng.randrange(256), rng.randrange(256)]))]))
+            if rng.random() < 0.3:
+                ev.append(("refresh", max(0, far[0] - 1), bytes(rng.randrange(256) for _ in range(4))))
+                ev.append(("statp", []))
+    return ev
+
+
 class AsyncRig:
     """real GeckoAsyncSpa + real protocol + the real long-lived partial handler consuming from the real queue"""
 
-    def __init__(self, loop, block):
+    def __init__(self, loop, block, tables=None):
         from geckolib.async_spa import GeckoAsyncSpa
         from geckolib.async_tasks import AsyncTasks
         from geckolib.driver.async_udp_protocol import GeckoAsyncUdpProtocol
@@ -108,6 +170,7 @@ class AsyncRig:
         self.proto.connection_made(self.tr)
         self.spa._protocol = self.proto
         self.spa.struct.set_status_block(block)
+        _connected_tables(self.spa.struct, tables)
         self.handler = GeckoAsyncPartialStatusBlockProtocolHandler(self.proto, async_on_handled=self.spa._async_on_partial_status_update)
         self.task = asyncio.ensure_future(self.handler.consume(self.proto))
 
@@ -178,10 +241,11 @@ class AsyncRig:
 class SyncRig:
     """real GeckoSpa, engine stepped by hand: dispatch_recevied_data on the client's own handler list"""
 
-    def __init__(self, block):
+    def __init__(self, block, tables=None):
         from geckolib.spa import GeckoSpa
         self.spa = GeckoSpa(_Desc())
         self.spa.struct.set_status_block(block)
+        _connected_tables(self.spa.struct, tables)
         from geckolib.driver.protocol.statusblock import GeckoPartialStatusBlockProtocolHandler
         self.handler = [h for h in self.spa._receive_handlers if isinstance(h, GeckoPartialStatusBlockProtocolHandler)][0]
 
@@ -203,13 +267,13 @@ def ref_apply(block, recs):
     return block
 
 
-def run_history(ctx, hist, block0, lines, impl_ans, label):
+def run_history(ctx, hist, block0, lines, impl_ans, label, tables=None):
     """runs one history on both real clients, appends ops/answers, checks the direct oracle"""
     results = {}
 
     async def body(loop):
-        a = AsyncRig(loop, block0)
-        s = SyncRig(block0)
+        a = AsyncRig(loop, block0, tables)
+        s = SyncRig(block0, tables)
         lines.append(f"a new {block0.hex()}")
         impl_ans.append(a.show()[0])
         lines.append(f"s new {block0.hex()}")
@@ -222,7 +286,10 @@ def run_history(ctx, hist, block0, lines, impl_ans, label):
                 nstatp += 2
                 ref = ref_apply(ref_apply(ref, e[1]), e[2])
                 ref = ref[:e[3]] + e[4] + ref[e[3] + len(e[4]):]
-                err = await a.busy_window([b1, b2], e[3], e[4])
+                try:
+                    err = await a.busy_window([b1, b2], e[3], e[4])
+                except Exception as ex:  # noqa
+                    err = "err:raised:" + type(ex).__name__
                 try:
                     s.statp(b1)
                     s.statp(b2)
@@ -242,7 +309,10 @@ def run_history(ctx, hist, block0, lines, impl_ans, label):
                 nstatp += 1
                 ref = ref_apply(ref, e[1])
                 ref = ref[:e[2]] + e[3] + ref[e[2] + len(e[3]):]
-                err = await a.wire_refresh(b1, e[2], e[3], (e[4] if len(e) > 4 else 150) / 1000.0, (e[5] if len(e) > 5 else 0) / 1000.0)
+                try:
+                    err = await a.wire_refresh(b1, e[2], e[3], (e[4] if len(e) > 4 else 150) / 1000.0, (e[5] if len(e) > 5 else 0) / 1000.0)
+                except Exception as ex:  # noqa
+                    err = "err:raised:" + type(ex).__name__
                 try:
                     s.statp(b1)
                     s.refresh(e[2], e[3])
@@ -262,13 +332,22 @@ def run_history(ctx, hist, block0, lines, impl_ans, label):
                     s.statp(bodyb)
                 except Exception as ex:  # noqa
                     results["sync_exc"] = repr(ex)
+                    ctx.hist("threaded_client_raised", type(ex).__name__)
                 op = f"statp {hx(bodyb)}"
                 ctx.hist("ops", f"statp:{min(len(e[1]), 5)}{'+' if len(e[1]) > 5 else ''}rec")
             else:
                 ref = ref[:e[1]] + e[2] + ref[e[1] + len(e[2]):]
-                a.refresh(e[1], e[2])
-                s.refresh(e[1], e[2])
                 err = None
+                for rg_ in (a, s):
+                    try:
+                        rg_.refresh(e[1], e[2])
+                    except Exception as ex:  # noqa - an exception of the implementation is an observation, not a harness failure
+                        cls_ = "async" if rg_ is a else "threaded"
+                        ctx.violation(f"refresh-raised:{cls_}:{type(ex).__name__}", {"client": cls_, "block0": block0.hex(), "tables": list(tables) if tables else None,
+                                      "history": [list(map(lambda x: x.hex() if isinstance(x, bytes) else x, ev_json(ev))) for ev in hist[:i + 1]]},
+                                      "a refresh installs its bytes", f"{type(ex).__name__}: {ex}")
+                        if rg_ is a:
+                            err = "err:refresh-raised:" + type(ex).__name__
                 op = f"refresh {e[1]} {hx(e[2])}"
                 ctx.hist("ops", "refresh")
             for name, rig in (("a", a), ("s", s)):
@@ -280,10 +359,12 @@ def run_history(ctx, hist, block0, lines, impl_ans, label):
                 cls = "async" if name == "a" else "threaded"
                 if blk != ref:
                     diff = [j for j in range(min(len(blk), len(ref))) if blk[j] != ref[j]][:5]
-                    ctx.violation(f"block:{cls}", {"client": cls, "block0": block0.hex(), "history": [list(map(lambda x: x.hex() if isinstance(x, bytes) else x, ev_json(ev))) for ev in hist[:i + 1]]},
+                    ctx.violation(f"block:{cls}", {"client": cls, "block0": block0.hex(), "tables": list(tables) if tables else None, "history": [list(map(lambda x: x.hex() if isinstance(x, bytes) else x, ev_json(ev))) for ev in hist[:i + 1]]},
                                   "client block equals the sequentially updated reference", {"first_differing_positions": diff, "event_index": i})
                 if len(acks) != nstatp:
-                    ctx.violation(f"acks:{cls}", {"client": cls, "history_len": i + 1}, f"{nstatp} STATQ", f"{len(acks)} STATQ")
+                    ctx.violation(f"acks:{cls}", {"client": cls, "block0": block0.hex(), "tables": list(tables) if tables else None, "acks_only": True,
+                                                  "history": [list(map(lambda x: x.hex() if isinstance(x, bytes) else x, ev_json(ev))) for ev in hist[:i + 1]]},
+                                  f"{nstatp} STATQ", f"{len(acks)} STATQ")
                 for verb, seq in acks:
                     if verb != "STATQ" or not (1 <= seq <= 191):
                         ctx.violation(f"ackseq:{cls}", {"client": cls}, "STATQ with sequence in 1..191", [verb, seq])
@@ -329,9 +410,34 @@ def run(ctx):
         [("statp", [(40, b"\x11")]), ("refresh", 40, b"\x22\x33"), ("statp", []), ("statp", [(41, b"\x44")])],
     ]
     hists = corpus + [gen_history(rng, rng.randrange(2, 12 if ctx.quick else 40)) for _ in range(nh)]
-    for h in hists:
+    # connected clients: the items of a pack's tables are built over the block and watched (as a facade does)
+    try:
+        import packs as _packs
+        from props.c03 import platform_pairs
+        mods_ = _packs.load_tables()
+        pairs_ = platform_pairs(mods_)
+    except Exception as e:  # noqa
+        ctx.obligation_broken("harness:pack-tables", f"{type(e).__name__}: {e}")
+        pairs_ = []
+    edge = []
+    for cm, lm in (rng.sample(pairs_, min(len(pairs_), 6 if ctx.quick else 60)) if pairs_ else []):
+        its = {it["key"]: it for it in cm["items"]}
+        its.update({it["key"]: it for it in lm["items"]})
+        edge.append(((cm["file"], lm["file"]), gen_edge_history(rng, list(its.values()))))
+    ctx.cov["connected_client_histories"] = len(edge)
+    tabs_plain = [(pairs_[0][0]["file"], pairs_[0][1]["file"])] if pairs_ else [None]
+    for n_, h in enumerate(hists):
         block0 = bytes(rng.randrange(256) for _ in range(1024))
-        run_history(ctx, h, block0, lines, impl_ans, "h")
+        run_history(ctx, h, block0, lines, impl_ans, "h", tables=(tabs_plain[0] if n_ % 2 else None))
+    for tabs, h in edge:
+        block0 = bytes(rng.randrange(256) for _ in range(1024))
+        try:
+            run_history(ctx, h, block0, lines, impl_ans, "edge", tables=tabs)
+        except Exception as e:  # noqa
+            ctx.violation(f"connected-client:{type(e).__name__}", {"client": "async", "block0": block0.hex(), "tables": list(tabs),
+                                                                   "history": [[x.hex() if isinstance(x, bytes) else x for x in ev_json(ev)] for ev in h]},
+                          "a connected client applies every update", f"{type(e).__name__}: {e}")
+        nontrivial.add(("edge", tabs[0].split("-")[0]))
         kinds = tuple(e[0] + (str(min(len(e[1]), 3)) if e[0] == "statp" else "") for e in h)
         rep = len({p for e in h if e[0] == "statp" for p, _ in e[1]}) < sum(len(e[1]) for e in h if e[0] == "statp")
         if len(h) >= 2:
@@ -384,6 +490,6 @@ def replay(inp):
             hist.append(("busy", recs_of(ev[1]), recs_of(ev[2]), ev[3], bytes.fromhex(ev[4])))
         else:
             hist.append(("refresh", ev[1], bytes.fromhex(ev[2])))
-    run_history(ctx, hist, bytes.fromhex(inp["block0"]), [], [], "replay")
+    run_history(ctx, hist, bytes.fromhex(inp["block0"]), [], [], "replay", tables=tuple(inp["tables"]) if inp.get("tables") else None)
     v = [x for x in ctx.violations if x["input"].get("client") == inp.get("client")]
     return bool(v), v[0]["observed"] if v else "block equals reference"
